@@ -210,7 +210,24 @@ func (dl *dialLimiter) AddDialJob(dj *dialJob) {
 func (dl *dialLimiter) clearAllPeerDials(p peer.ID) {
 	dl.lk.Lock()
 	defer dl.lk.Unlock()
-	delete(dl.waitingOnPeerLimit, p)
+	// Only drop the jobs of the dial worker that is going away; their context has been
+	// cancelled by now. A new worker for the same peer may already have queued jobs of
+	// its own: dropping those would leave its requests waiting for dials that never happen.
+	waiting := dl.waitingOnPeerLimit[p]
+	kept := waiting[:0]
+	for _, dj := range waiting {
+		if !dj.cancelled() {
+			kept = append(kept, dj)
+		}
+	}
+	for i := len(kept); i < len(waiting); i++ {
+		waiting[i] = nil // clear out memory
+	}
+	if len(kept) == 0 {
+		delete(dl.waitingOnPeerLimit, p)
+	} else {
+		dl.waitingOnPeerLimit[p] = kept
+	}
 	log.Debug("[limiter] clearing all peer dials", "peer", p)
 	// NB: the waitingOnFd list doesn't need to be cleaned out here, we will
 	// remove them as we encounter them because they are 'cancelled' at this
